@@ -814,3 +814,72 @@ func R20ItemPairing(c *Ctx) {
 		}
 	}
 }
+
+// R20NumberExact — a number is written with all its digits.
+func R20NumberExact(c *Ctx) {
+	const rule = "R20-number-exact"
+	c.R.Rule(rule, "hclwrite renders a cty number only through the arbitrary-precision formatter ((*big.Float).Text / Append with format 'f' and precision -1): no function of the package narrows a *big.Float / *big.Int to a machine integer or float (Int64, Uint64, Float64, Float32) on the way to a token — a narrowed value is clamped or rounded and re-parses as a different number than the one that was set", 1)
+	n, exact := 0, 0
+	for _, fn := range c.P.ModuleFuncs(func(p string) bool { return p == PkgYaotl+"/hclwrite" }) {
+		EachCall(fn, func(call ssa.CallInstruction) {
+			name := CalleeName(call)
+			switch name {
+			case "(*math/big.Float).Text", "(*math/big.Float).Append":
+				args := call.Common().Args
+				if len(args) >= 3 {
+					f, ok1 := ConstInt(args[len(args)-2])
+					pr, ok2 := ConstInt(args[len(args)-1])
+					n++
+					if ok1 && ok2 && f == 'f' && pr == -1 {
+						exact++
+						c.R.Ok(rule, FuncShort(fn), "big.Float.Text('f', -1)", c.pos(call.Pos()), "all digits, no exponent", true)
+					} else {
+						c.R.Bad(rule, FuncShort(fn), "big.Float.Text('f', -1)", c.pos(call.Pos()), "the number is formatted with a format/precision that can drop digits")
+					}
+				}
+			case "(*math/big.Float).Int64", "(*math/big.Float).Uint64", "(*math/big.Float).Float64", "(*math/big.Float).Float32",
+				"(*math/big.Int).Int64", "(*math/big.Int).Uint64":
+				n++
+				c.R.Bad(rule, FuncShort(fn), shortCallee(name)+"()", c.pos(call.Pos()), "a number is narrowed to a machine type while being written: values outside that type's range are clamped (or rounded) in the generated literal")
+			}
+		})
+	}
+	if exact == 0 {
+		c.R.Anchor(rule, "the (*big.Float).Text('f', -1) call of hclwrite")
+	}
+}
+
+// R20PassOrder — the indentation pass runs before the alignment pass that measures line prefixes.
+func R20PassOrder(c *Ctx) {
+	const rule = "R20-pass-order"
+	c.R.Rule(rule, "in hclwrite.format the call of formatIndent comes before the call of formatCells on every path: formatCells aligns the assignment/comment cells by the width of the cells before them, which includes the leading spaces of the line — measured before the indentation is normalised, the padding depends on the input's indentation and a second run of the formatter changes the file again", 1)
+	fn := c.P.Func(PkgYaotl+"/hclwrite", "format")
+	if fn == nil {
+		c.R.Anchor(rule, "hclwrite.format")
+		return
+	}
+	var indent, cells ssa.Instruction
+	for _, f := range HelperClosure(fn, 1) {
+		if f != fn {
+			continue
+		}
+		EachCall(f, func(call ssa.CallInstruction) {
+			switch CalleeName(call) {
+			case "Havoc/pkg/profile/yaotl/hclwrite.formatIndent":
+				indent = call.(ssa.Instruction)
+			case "Havoc/pkg/profile/yaotl/hclwrite.formatCells":
+				cells = call.(ssa.Instruction)
+			}
+		})
+	}
+	if indent == nil || cells == nil {
+		c.R.Anchor(rule, "the formatIndent and formatCells calls of hclwrite.format")
+		return
+	}
+	construct := "formatIndent before formatCells"
+	if InstrDominates(indent, cells) {
+		c.R.Ok(rule, FuncShort(fn), construct, c.pos(cells.Pos()), "cells are measured on indented lines", true)
+	} else {
+		c.R.Bad(rule, FuncShort(fn), construct, c.pos(cells.Pos()), "the alignment pass runs on lines whose indentation has not been normalised yet: the padding it computes depends on the original indentation, so formatting is not idempotent")
+	}
+}
